@@ -165,7 +165,18 @@ JS_ENT = ["javascript&colon;alert(1)", "&#106;avascript:alert(1)", "&#x6A;avascr
 
 def url_holder(url, rng):
     """an element the policy keeps whose URL attribute carries url"""
-    k = rng.randrange(6)
+    k = rng.randrange(9)
+    q = url.replace('"', "&quot;")
+    if k == 6:
+        # URL-bearing attributes other than href / src / cite, on elements a mail sanitiser tends to keep
+        return rng.choice([('<table><tr><td background="%s">' % q, "</td></tr></table>"), ('<table background="%s"><tr><td>' % q, "</td></tr></table>"),
+                           ('<table><tr background="%s"><th>' % q, "</th></tr></table>"), ('<div background="%s">' % q, "</div>")])
+    if k == 7:
+        return rng.choice([('<video poster="%s">' % q, "</video>"), ('<form action="%s"><button formaction="%s">' % (q, q), "</button></form>"),
+                           ('<object data="%s">' % q, "</object>"), ('<img lowsrc="%s" dynsrc="%s" alt=i>' % (q, q), ""), ('<q cite="%s">' % q, "</q>"),
+                           ('<img longdesc="%s" alt=i>' % q, "")])
+    if k == 8:
+        return ('<svg><a xlink:href="%s">' % q, "</a></svg>")
     if k == 0:
         return ('<a href="%s">' % url.replace('"', "&quot;"), "</a>")
     if k == 1:
